@@ -18,7 +18,7 @@ NPool == IF Small THEN (IF Len(Pool) < 5 THEN Len(Pool) ELSE 5) ELSE Len(Pool)
 \* Faults: 0 = none, 1 = three representative codes, 2 = every libidn2 code, 3 = the "mode walk" profile (see NextWalk)
 AllFaultCodes == {0, -100, -101, -102, -103, -104, -200, -201, -202, -203, -204, -205, -206, -207, -208,
                   -300, -301, -302, -303, -304, -305, -306, -307, -308, -309, -310, -311, -312, -313, -314, -999}
-FaultCodes == IF Faults = 2 THEN AllFaultCodes ELSE IF Faults = 1 THEN {0, -100, -304} ELSE IF Faults = 3 THEN {0, -304} ELSE {0}
+FaultCodes == IF Faults = 2 THEN AllFaultCodes ELSE IF Faults = 1 THEN {0, -100, -304} ELSE IF Faults = 3 THEN {0, -100, -304} ELSE {0}
 ConvOf(i, f) == IF f = 0 THEN Pool[i].conv ELSE [code |-> f, out |-> <<>>]
 \* the per-mode results of the pool: literal tables of EnvData (computed by the pre-run MC_Pool)
 ModeIdx(m) == CASE m = RFC822 -> 1 [] m = RFC5321 -> 2 [] m = RFC5322 -> 3 [] m = RFC6531 -> 4
@@ -57,7 +57,7 @@ Step2(s1, s2, v) == st' = s2 /\ hist' = IF MaxHist = 0 THEN hist
                                                   ELSE hist \o << <<2, v, 0>> \o ObsVec(s1), <<5, 0, 0>> \o ObsVec(s2) >>
 DoSwitch   == (MaxHist = 0 \/ Len(hist) + 2 <= MaxHist) /\ CanUse(st) /\ \E v \in {0, 1, 3, 7} :
                  LET s1 == SetRfc(st, v) IN Step2(s1, EavSetup(Backend, s1), v)
-DoIsEmail2 == Room /\ CanValidate(st) /\ \E i \in 1..2 : \E f \in {0, -304} : Step(IsEmailStep(st, i, f), 6, i, f)
+DoIsEmail2 == Room /\ CanValidate(st) /\ \E i \in 1..2 : \E f \in {0, -100, -304} : Step(IsEmailStep(st, i, f), 6, i, f)
 DoSetTldOff == Room /\ CanUse(st) /\ st.tld /\ Step(SetTld(st, FALSE), 3, 0, 0)
 NextWalk == DoInit \/ DoSwitch \/ DoIsEmail2 \/ DoErrstr \/ DoSetTldOff
 Next == IF Faults = 3 THEN NextWalk ELSE NextFull
